@@ -1,14 +1,20 @@
-(* C17 -- model of cnvlib.segmetrics.do_segmetrics and of the descriptives it calls
-   (cnvlib/descriptives.py: on_array, median_absolute_deviation, mean_squared_error,
-   interquartile_range, biweight_location, biweight_midvariance, modal_location), as the
-   code is NOW.  Executable definitions only; lemmas are in Proofs/Segmetrics.v.
+(* C17 -- model of cnvlib.segmetrics.do_segmetrics (make_ci_func, make_pi_func,
+   calc_intervals, confidence_interval_bootstrap, _smooth_samples_by_weight) as the code
+   is NOW.  Executable definitions only; lemmas are in Proofs/Segmetrics*.v.
 
    Granularity: a bin table (rows: chromosome, start, end, gene, log2, weight, optional
    depth) and a segment table in; one row of statistics per segment out.  NaN is [None].
-   Statistics whose last step is a square root (stdev, bivar, sem) are modelled SQUARED
-   (the harness compares squares / takes the root).  Transcendental / external / random
-   parts are oracles (record [oracles]); every theorem quantifies over them. *)
-From CNV Require Import Base.Prelude Base.QNum Gen.Params Gen.SegmetricsDefaults.
+
+   * The bins of a segment are selected by the C07 model of GenomicArray.iter_ranges_of
+     (Model/Ranges.v: by_shared_chroms, idx_ranges, searchsorted ... on index labels);
+     Proofs/Segmetrics.v shows that this is the plain "overlaps" filter on sorted tables.
+   * The estimators of cnvlib/descriptives.py are C19's models (Model/Descriptives.v).
+   * Statistics whose last step is a square root (stdev, bivar, sem) are modelled SQUARED
+     (the harness compares squares).  Transcendental / external / random parts are
+     oracles (record [oracles], one bundle per segment = what the library returned in
+     that call); every theorem quantifies over them. *)
+From CNV Require Import Base.Prelude Base.QNum Gen.Params Gen.SegmetricsDefaults Gen.DescDefaults
+  Model.Ranges Model.Descriptives.
 From Coq Require Import Qround Qabs.
 Local Open Scope Q_scope.
 
@@ -21,35 +27,41 @@ Record seg := mkSeg {
   s_chr : string; s_start : Z; s_end : Z; s_gene : string;
   s_log2 : Q; s_probes : Z; s_weight : Q }.
 
-(* iter_ranges_of(segarr, "log2", "outer", True): per chromosome,
-   rows with end > segment start (end.searchsorted(start, 'right')) and
-   start < segment end (start.searchsorted(end)); the searchsorted machinery is C07's *)
-Definition overlaps (s : seg) (b : bin) : bool :=
-  String.eqb (b_chr b) (s_chr s) && (s_start s <? b_end b)%Z && (b_start b <? s_end s)%Z.
+(* a bin with its index label (position in the table the caller passed in; row filters
+   such as drop_low_coverage keep the labels) *)
+Definition tbin := (nat * bin)%type.
+Definition tagged (bins : list bin) : list tbin := combine (seq 0 (length bins)) bins.
 
-Definition seg_bins (bins : list bin) (s : seg) : list bin := filter (overlaps s) bins.
+(* the coordinate view the range machinery of skgenome works on *)
+Definition bin_trow (ib : tbin) : trow :=
+  (b_chr (snd ib), mkRow (Z.of_nat (fst ib)) (b_start (snd ib)) (b_end (snd ib))).
+Definition seg_trow (s : seg) : trow := (s_chr s, mkRow 0 (s_start s) (s_end s)).
+
+(* ser[indices] / weights[ser.index]: look the selected index labels up again *)
+Fixpoint find_bin (tb : list tbin) (id : Z) : option tbin :=
+  match tb with
+  | [] => None
+  | ib :: t => if (Z.of_nat (fst ib) =? id)%Z then Some ib else find_bin t id
+  end.
+Definition rows_tbins (tb : list tbin) (rows : list row) : list tbin :=
+  flat_map (fun r => match find_bin tb (r_id r) with Some ib => [ib] | None => [] end) rows.
+
+(* cnarr.iter_ranges_of(segarr, "log2", mode, True): one selection per segment *)
+Definition select_bins (m : qmode) (tb : list tbin) (segs : list seg) : list (list tbin) :=
+  map (rows_tbins tb) (iter_ranges_of (map bin_trow tb) (map seg_trow segs) m true).
 
 (* CopyNumArray.drop_low_coverage *)
 Definition min_cvg : Q := Qred (NULL_LOG2_COVERAGE - MIN_REF_COVERAGE).
 Definition is_low (b : bin) : bool :=
   qlt_b (b_log2 b) min_cvg ||
   match b_depth b with Some d => qeq_b d 0 | None => false end.
-Definition drop_low_coverage (bins : list bin) : list bin :=
-  filter (fun b => negb (is_low b)) bins.
-
-(* ---- the decorators ------------------------------------------------------ *)
-(* descriptives.on_array(default): NaN on no value, a[0] / default on one value *)
-Definition on_array (default : option Q) (f : list Q -> option Q) (a : list Q) : option Q :=
-  match a with
-  | [] => None
-  | [x] => match default with None => Some x | Some d => Some d end
-  | _ => f a
-  end.
+Definition drop_low_coverage (tb : list tbin) : list tbin :=
+  filter (fun ib => negb (is_low (snd ib))) tb.
 
 (* ---- moments ------------------------------------------------------------- *)
 Definition sq_devs (l : list Q) : list Q :=
   let m := qmean l in map (fun x => qsq (qsub x m)) l.
-(* population variance: pandas Series.std(ddof=0)^2 (np.std dispatches to it) *)
+(* population variance: np.std(Series) = Series.std(ddof=0), squared *)
 Definition var_pop (l : list Q) : Q := qmean (sq_devs l).
 (* sample variance, ddof = 1 *)
 Definition var_ddof1 (l : list Q) : Q := qdiv (qsum (sq_devs l)) (qofnat (length l - 1)).
@@ -60,13 +72,8 @@ Definition st_mean (a : list Q) : option Q :=
 Definition st_median (a : list Q) : option Q :=
   match a with [] => None | _ => Some (median a) end.
 
-(* modal_location: constant input returns the value; otherwise the sorted value
-   at the argmax of the Gaussian KDE evaluated on the sorted values (oracle) *)
-Definition st_mode (kde_argmax : list Q -> nat) : list Q -> option Q :=
-  on_array None (fun a =>
-    let s := qsort a in
-    if qeq_b (nthq 0 s) (nthq (length s - 1) s) then Some (nthq 0 s)
-    else Some (nthq (kde_argmax s) s)).
+(* descriptives.modal_location; the KDE arg-max index is an oracle *)
+Definition st_mode (kde_argmax : nat) (a : list Q) : option Q := modal_location_at a kde_argmax.
 
 (* stats.ttest_1samp(a, 0.0)[1]: p-value of t = mean / sqrt(var1/n), two-sided,
    n-1 degrees of freedom; the Student-t tail is an oracle of (t^2, df).
@@ -86,81 +93,46 @@ Definition st_pttest (tt : Q -> nat -> Q) (a : list Q) : option Q :=
 Definition st_stdev_sq (d : list Q) : option Q :=
   match d with [] => None | _ => Some (var_pop d) end.
 
-Definition st_mad : list Q -> option Q :=
-  on_array (Some mad_single) (fun a =>
-    let m := median a in
-    Some (qmul (median (map (fun x => Qabs (qsub x m)) a)) mad_scale)).
-
-(* mean_squared_error AS CODED: initial defaults to a.mean(), so this is the
-   population variance of its argument ("if initial:" only skips a subtraction of 0) *)
+Definition st_mad (d : list Q) : option Q := median_absolute_deviation d MAD_SCALE_TO_SD.
+(* mean_squared_error(a) after /repo 40f88ee: initial = None is not subtracted, the
+   deviations are measured from zero: (a**2).mean()  (own definition: C19's mse_core
+   follows the same repair on its own schedule) *)
 Definition st_mse : list Q -> option Q :=
-  on_array (Some mse_single) (fun a =>
-    let initial := qmean a in
-    Some (qmean (map (fun x => qsq (qsub x initial)) a))).
+  on_array (Some MSE_DEFAULT) (fun a => Some (qmean (map qsq a))).
+Definition st_iqr (d : list Q) : option Q := interquartile_range d.
 
-Definition st_iqr : list Q -> option Q :=
-  on_array (Some iqr_single) (fun a =>
-    Some (qsub (percentile iqr_pct_hi a) (percentile iqr_pct_lo a))).
+(* biweight_midvariance SQUARED (c = 9, epsilon = 1e-3), located at biweight_location(a);
+   the MAD fallback is taken when no masked deviation is non-zero ("if not w[mask].any()",
+   /repo 2c65616); None also stands for the inf/NaN of a vanishing denominator *)
+Definition bivar_masked (a : list Q) (initial : Q) : list (Q * Q) :=
+  let d := sub_all initial a in
+  let mad := median (abs_all d) in
+  let scale := qmax2 (qmul BIVAR_C mad) BIVAR_EPS in
+  let w := map (fun di => qdiv di scale) d in
+  filter (fun p => qlt_b (qabs (snd p)) BIVAR_MASK_BOUND) (combine d w).
+Definition bivar_num (dw : list (Q * Q)) : Q :=
+  qsum (map (fun p => qmul (qsq (fst p)) (qpow (qsub 1 (qsq (snd p))) (Z.to_nat BIVAR_NUM_POW))) dw).
+Definition bivar_den (dw : list (Q * Q)) : Q :=
+  qsum (map (fun p => qmul (qsub 1 (qsq (snd p))) (qsub 1 (qmul BIVAR_DEN_COEF (qsq (snd p))))) dw).
+Definition bivar_sq_at (a : list Q) (initial : Q) : option Q :=
+  let dw := bivar_masked a initial in
+  if forallb (fun p => qeq_b (snd p) 0) dw
+  then Some (qsq (qmul (median (abs_all (sub_all initial a))) BIVAR_MAD_SCALE))
+  else if qeq_b (bivar_den dw) 0 then None
+  else Some (qdiv (qmul (qofnat (length dw)) (bivar_num dw)) (qsq (bivar_den dw))).
+(* [loc] = biweight_location(a) as the library returned it: an oracle here (its exact
+   iteration is C19's subject, Model/Descriptives.v biweight_location_core; iterating it in
+   exact rationals squares the size of the numbers five times over) *)
+Definition st_bivar_sq (loc : Q) : list Q -> option Q :=
+  on_array (Some (qsq BIVAR_DEFAULT)) (fun a => bivar_sq_at a loc).
 
+(* stats.sem: sqrt(var(ddof = 1) / n), squared *)
 Definition st_sem_sq (d : list Q) : option Q :=
   match d with
   | [] => None
   | [_] => None
   | _ => Some (qdiv (var_ddof1 d) (qofnat (length d)))
   end.
-
-(* biweight_location (c = 6, epsilon = 1e-3, max_iter = 5), after fix d5abf9f *)
-Definition masked (bound : Q) (dw : list (Q * Q)) : list (Q * Q) :=
-  filter (fun p => qlt_b (Qabs (snd p)) bound) dw.
-
-Definition biloc_iter (a : list Q) (initial : Q) : Q :=
-  let d := map (fun x => qsub x initial) a in
-  let mad := median (map Qabs d) in
-  let scale := qmax2 biloc_eps (qmul biloc_c mad) in          (* max(c*mad, epsilon) *)
-  let w := map (fun x => qdiv x scale) d in
-  let dm := masked biloc_mask_bound (combine d w) in
-  let w2 := map (fun p => qsq (qsub 1 (qsq (snd p)))) dm in
-  let weightsum := qsum w2 in
-  if qeq_b weightsum 0 then initial
-  else qadd initial (qdiv (qdot (map fst dm) w2) weightsum).
-
-Fixpoint biloc_loop (fuel : nat) (a : list Q) (initial : Q) : Q :=
-  match fuel with
-  | O => initial
-  | S n =>
-      let result := biloc_iter a initial in
-      if qle_b (Qabs (qsub result initial)) biloc_eps then result
-      else biloc_loop n a result
-  end.
-
-Definition biweight_location : list Q -> option Q :=
-  on_array None (fun a => Some (biloc_loop (Z.to_nat biloc_max_iter) a (median a))).
-
-Fixpoint qpow (x : Q) (n : nat) : Q :=
-  match n with O => 1 | S k => qmul x (qpow x k) end.
-
-(* biweight_midvariance SQUARED (c = 9, epsilon = 1e-3); None also stands for the
-   inf/NaN of a vanishing denominator *)
-Definition st_bivar_sq : list Q -> option Q :=
-  on_array (Some (qsq bivar_single)) (fun a =>
-    match biweight_location a with
-    | None => None
-    | Some initial =>
-        let d := map (fun x => qsub x initial) a in
-        let mad := median (map Qabs d) in
-        let scale := qmax2 bivar_eps (qmul bivar_c mad) in
-        let w := map (fun x => qdiv x scale) d in
-        let dm := masked bivar_mask_bound (combine d w) in
-        if qeq_b (qsum (map snd dm)) 0 then Some (qsq (qmul mad bivar_mad_scale))
-        else
-          let n := qofnat (length dm) in
-          let num := qsum (map (fun p => qmul (qsq (fst p))
-                             (qpow (qsub 1 (qsq (snd p))) (Z.to_nat bivar_num_pow))) dm) in
-          let den := qsum (map (fun p => qmul (qsub 1 (qsq (snd p)))
-                                              (qsub 1 (qmul bivar_five (qsq (snd p))))) dm) in
-          if qeq_b den 0 then None
-          else Some (qdiv (qmul n num) (qsq den))
-    end).
 
 (* ---- intervals ----------------------------------------------------------- *)
 (* make_pi_func: np.percentile(ser, [100*alpha/2, 100*(1 - alpha/2)]) *)
@@ -197,12 +169,14 @@ Definition n_boot (bootstraps : Z) (q2a : Q) : Z :=
 Definition ci_pct_lo (alpha : Q) : Q := Qred (ci_hundred * (alpha / ci_two_lo)).
 Definition ci_pct_hi (alpha : Q) : Q := Qred (ci_hundred * (ci_one_hi - alpha / ci_two_hi)).
 
+(* what the libraries returned while one segment was processed *)
 Record oracles := mkOracles {
-  o_kde : list Q -> nat;                       (* argmax of the Gaussian KDE over the sorted values *)
-  o_tt : Q -> nat -> Q;                        (* two-sided Student-t tail of (t^2, df) *)
-  o_q2a : Q -> Q;                              (* the float 2/alpha *)
-  o_idx : nat -> Z -> list (list nat);         (* seed(0xA5EED); randint(0, k, size=(bootstraps, k)) *)
-  o_noise : list Q -> Z -> list (list Q)       (* smoothing noise rows drawn after the indices *)
+  o_kde : nat;                           (* argmax of the Gaussian KDE over the sorted values *)
+  o_biloc : Q;                           (* descriptives.biweight_location of the deviations *)
+  o_tt : Q -> nat -> Q;                  (* two-sided Student-t tail of (t^2, df) *)
+  o_q2a : Q;                             (* the float 2/alpha *)
+  o_idx : list (list nat);               (* seed(0xA5EED); randint(0, k, size=(bootstraps, k)) *)
+  o_noise : list (list Q)                (* smoothing noise rows drawn after the indices *)
 }.
 
 Definition ci_func (O : oracles) (alpha : Q) (bootstraps : Z) (smoothed : bool)
@@ -212,10 +186,9 @@ Definition ci_func (O : oracles) (alpha : Q) (bootstraps : Z) (smoothed : bool)
   | x :: _ =>
       if (Z.of_nat (length vals) <? ci_min_k)%Z then Some (x, x)
       else
-        let nb := n_boot bootstraps (o_q2a O alpha) in
-        let idxm := o_idx O (length vals) nb in
+        let idxm := o_idx O in
         let dist := if smoothed
-                    then boot_means_smoothed vals wts idxm (o_noise O wts nb)
+                    then boot_means_smoothed vals wts idxm (o_noise O)
                     else boot_means vals wts idxm in
         Some (percentile (ci_pct_lo alpha) dist, percentile (ci_pct_hi alpha) dist)
   end.
@@ -232,12 +205,12 @@ Definition loc_stat (O : oracles) (name : string) : option (list Q -> option Q) 
   else if String.eqb name "p_ttest" then Some (st_pttest (o_tt O))
   else None.
 
-Definition spread_stat (name : string) : option (list Q -> option Q) :=
+Definition spread_stat (O : oracles) (name : string) : option (list Q -> option Q) :=
   if String.eqb name "stdev" then Some st_stdev_sq
   else if String.eqb name "mad" then Some st_mad
   else if String.eqb name "mse" then Some st_mse
   else if String.eqb name "iqr" then Some st_iqr
-  else if String.eqb name "bivar" then Some st_bivar_sq
+  else if String.eqb name "bivar" then Some (st_bivar_sq (o_biloc O))
   else if String.eqb name "sem" then Some st_sem_sq
   else None.
 
@@ -258,7 +231,7 @@ Definition row_of_values (O : oracles) (cfg : config) (seg_log2 : Q) (vals wts :
   : list (string * option Q) :=
   let devs := map (fun x => qsub x seg_log2) vals in
   named_stats (loc_stat O) (c_loc cfg) vals ++
-  named_stats spread_stat (c_spread cfg) devs ++
+  named_stats (spread_stat O) (c_spread cfg) devs ++
   (if has "ci" (c_ivl cfg)
    then pair_cols "ci_lo" "ci_hi" (ci_func O (c_alpha cfg) (c_boot cfg) (c_smoothed cfg) vals wts)
    else []) ++
@@ -266,15 +239,22 @@ Definition row_of_values (O : oracles) (cfg : config) (seg_log2 : Q) (vals wts :
    then pair_cols "pi_lo" "pi_hi" (pi_func (c_alpha cfg) vals)
    else []).
 
-Definition seg_row (O : oracles) (cfg : config) (bins : list bin) (s : seg)
+Definition row_of_bins (O : oracles) (cfg : config) (s : seg) (sb : list tbin)
   : list (string * option Q) :=
-  let sb := seg_bins bins s in
-  row_of_values O cfg (s_log2 s) (map b_log2 sb) (map b_weight sb).
+  row_of_values O cfg (s_log2 s) (map (fun ib => b_log2 (snd ib)) sb)
+                                 (map (fun ib => b_weight (snd ib)) sb).
 
-Definition used_bins (cfg : config) (bins : list bin) : list bin :=
-  if c_skip_low cfg then drop_low_coverage bins else bins.
+Definition used_bins (cfg : config) (tb : list tbin) : list tbin :=
+  if c_skip_low cfg then drop_low_coverage tb else tb.
 
-(* the segment table comes back with its own columns, plus the new ones *)
-Definition do_segmetrics (O : oracles) (cfg : config) (bins : list bin) (segs : list seg)
+(* the bins each segment's statistics are computed on *)
+Definition segmetrics_bins (cfg : config) (bins : list bin) (segs : list seg) : list (list tbin) :=
+  select_bins QOuter (used_bins cfg (tagged bins)) segs.
+
+(* the segment table comes back with its own columns, plus the new ones; [Os i] are the
+   oracle values of segment number i *)
+Definition do_segmetrics (Os : nat -> oracles) (cfg : config) (bins : list bin) (segs : list seg)
   : list (seg * list (string * option Q)) :=
-  map (fun s => (s, seg_row O cfg (used_bins cfg bins) s)) segs.
+  let sel := segmetrics_bins cfg bins segs in
+  map (fun is => (snd is, row_of_bins (Os (fst is)) cfg (snd is) (nth (fst is) sel [])))
+      (combine (seq 0 (length segs)) segs).
